@@ -97,6 +97,16 @@ def make_truth(spec, b, seed):
 
 
 def make_frame(truth, storage):
+    # "str@reversed" / "object@gapped": the same table with row labels that are not 0..n-1 (after sort_values / filtering)
+    storage, _, index_kind = storage.partition("@")
+    df = _make_frame(truth, storage)
+    if index_kind and len(df):
+        n = len(df)
+        df.index = {"reversed": list(range(n - 1, -1, -1)), "gapped": [3 * i + 2 for i in range(n)], "repeated": [i % 2 for i in range(n)]}[index_kind]
+    return df
+
+
+def _make_frame(truth, storage):
     data = {}
     for lab, kind, col in zip(truth["labels"], truth["kinds"], truth["cols"]):
         if kind == "int":
@@ -299,6 +309,8 @@ def rt_single(tier, seed):
     for kt in kts:
         for rows in (0, 1, 2, 3):
             stor = ["str", "object"] if (rows and any(k in ("text", "mix") for k in kt)) else ["str"]
+            if rows >= 2:
+                stor = stor + ["str@reversed", "str@gapped"]
             for name in names:
                 for numbered in (True, False):
                     for st in stor:
